@@ -8562,9 +8562,26 @@ func NewLocalForceCloseSummary(chanState *chanstate.OpenChannel,
 	// recovery there is not much we can do with HTLCs, so we'll always
 	// use what we have in our latest state when extracting resolutions.
 	localCommit := chanState.LocalCommitment
+
+	// The HTLCs of our latest state, with their output indexes and
+	// second-level signatures, only describe the commitment of that state.
+	// If another state of ours confirmed (we lost state), there are no
+	// HTLC outputs we could resolve, and indexing the confirmed commitment
+	// with the stale output indexes would be out of range or point at
+	// unrelated outputs.
+	htlcs := localCommit.Htlcs
+	if stateNum != localCommit.CommitHeight {
+		walletLog.Warnf("ChannelPoint(%v): confirmed local commitment "+
+			"has state %v, our state is %v, skipping %v HTLCs",
+			chanState.FundingOutpoint, stateNum,
+			localCommit.CommitHeight, len(htlcs))
+
+		htlcs = nil
+	}
+
 	htlcResolutions, err := extractHtlcResolutions(
 		chainfee.SatPerKWeight(localCommit.FeePerKw), lntypes.Local,
-		signer, localCommit.Htlcs, keyRing, &chanState.LocalChanCfg,
+		signer, htlcs, keyRing, &chanState.LocalChanCfg,
 		&chanState.RemoteChanCfg, commitTx, commitTxHeight,
 		chanState.ChanType, chanState.IsInitiator, leaseExpiry,
 		chanState, auxResult.AuxLeaves, auxResolver,
